@@ -1326,7 +1326,5 @@ REPO_MODELS = {
     "Crypto.Math._IntegerGMP.IntegerGMP.from_bytes": r_integer_from_bytes,
     "Crypto.Math._IntegerNative.IntegerNative.from_bytes": r_integer_from_bytes,
     "Crypto.Math._IntegerCustom.IntegerCustom.from_bytes": r_integer_from_bytes,
-    "Crypto.Math._IntegerBase.IntegerBase.random": m_unknown("int"),
-    "Crypto.Math._IntegerBase.IntegerBase.random_range": m_unknown("int"),
     "Crypto.Math.Primality.test_probable_prime": r_test_probable_prime,
 }
